@@ -2264,3 +2264,39 @@ def lazy_pipeline(R, RID):
                      'resulting event is handled' % (fi.qual, U(arg), how), func=fi, node=c,
                      construct='pipeline materialised in %s' % fi.qual)
     R.ob(RID, 'pipeline laziness scan', n_fn >= 30, '%d functions scanned' % n_fn, func=None, node=None, construct='lazy pipeline scan')
+
+
+def event_fields(R, RID, classes):
+    """An event object reports what it was constructed with: events.<C>.__init__ stores every parameter, unmodified, in
+    the attribute of the same name, and no other method of the class re-binds that attribute."""
+    from ..dataflow import ReachingDefs
+    for cname in classes:
+        q = 'events.%s.__init__' % cname
+        f = R.func(q)
+        g = R.cfg(q)
+        rd = ReachingDefs(g)
+        params = [p for p in f.params if p != 'self']
+        need(params, '%s takes no payload parameter' % q)
+        for p in params:
+            stores = [n for n in g.live_nodes() if n.kind == 'stmt' and isinstance(n.ast, (ast.Assign, ast.AugAssign)) and any(
+                isinstance(t, ast.Attribute) and U(t) == 'self.' + p
+                for t in (n.ast.targets if isinstance(n.ast, ast.Assign) else [n.ast.target]))]
+            ok = len(stores) == 1 and isinstance(stores[0].ast, ast.Assign) and isinstance(stores[0].ast.value, ast.Name) \
+                and stores[0].ast.value.id == p and rd.defs_at(stores[0], p) == {g.entry} \
+                and all_paths_pass(g, [g.entry], stores, [g.exit], skip_edge=lambda a, b, l: l.startswith('exc:'))
+            R.ob(RID, 'events.%s.%s is the constructor argument' % (cname, p), ok,
+                 'events.%s stores %s in .%s: the event does not report the value it was constructed with' % (
+                     cname, [U(n.ast.value) for n in stores] or 'nothing', p), func=f,
+                 node=(stores[0].ast if stores else None), construct='events.%s.%s store' % (cname, p))
+        cls = R.prog.classes.get('events.' + cname) if hasattr(R.prog, 'classes') else None
+        others = []
+        for fq, fi in sorted(R.prog.funcs.items()):
+            if fi.cls is not None and fi.cls.qual == 'events.' + cname and fi.name != '__init__':
+                for x in own_nodes(fi.node):
+                    if isinstance(x, ast.Attribute) and isinstance(x.ctx, (ast.Store, ast.Del)) and isinstance(x.value, ast.Name) \
+                            and x.value.id == 'self' and x.attr in params:
+                        others.append('%s: %s' % (fq, x.attr))
+                if fi.name in params:
+                    others.append('%s shadows the attribute' % fq)
+        R.ob(RID, 'events.%s payload attributes are written by the constructor only' % cname, not others,
+             'also written in %s' % others, func=f, node=None, construct='events.%s attribute writers' % cname)
